@@ -207,10 +207,14 @@ class VGen(Gen):
         # TypeValidator on a builtin or on a class
         if self.chance(0.5):
             ty2 = r.choice(["int", "str", "list", "dict", "float"])
-            return {"k": "scalar", "vid": self.vid(), "ty": ty2, "asType": True, "coerce": None, "pre": None,
+            return {"k": "scalar", "vid": self.vid(), "ty": ty2, "asType": True,
+                    "coerce": self.user_coercer(ty2) if self.chance(0.3) else None, "pre": None,
                     "preds": self.preds(ty2, 1) if ty2 in ("int", "str") else [], "apreds": self.apreds(ty2)}
         c = self.new_class(0, hashable=self.chance(0.5))
-        return {"k": "scalar", "vid": self.vid(), "ty": {"cls": c}, "asType": True, "coerce": None, "pre": None,
+        co = None
+        if self.chance(0.25):
+            co = {"cid": self.cb(), "compat": [{"cls": c}], "fn": {"f": "ifTy", "ty": {"cls": c}}}
+        return {"k": "scalar", "vid": self.vid(), "ty": {"cls": c}, "asType": True, "coerce": co, "pre": None,
                 "preds": [], "apreds": None}
 
     def gen_v(self, depth: int, *, hashable: bool = False, no_async: bool = False) -> dict:
